@@ -19,3 +19,6 @@ pub use self::key::{
 };
 #[cfg(feature = "relay")]
 pub use self::relay_url::{RelayUrl, RelayUrlParseError};
+
+#[cfg(iroh_verif)]
+pub mod verif;
